@@ -676,7 +676,8 @@ def c10_prog(name, rng, entry):
         tr = None
         if n and rng.random() < 0.3:
             tr = rng.randrange(n)
-            fs[tr][1] = False
+            # the transparent field may also be marked ignore: it still delegates (ignore only matters without transparent)
+            fs[tr][1] = "both" if rng.random() < 0.35 else False
         return (vn, kind, fs, tr)
     vs = [mkvariant("ABCD"[i]) for i in range(rng.randint(1, 4))] if is_enum else [mkvariant("X")]
     names = "abcd"
@@ -695,7 +696,10 @@ def c10_prog(name, rng, entry):
                 continue
             at = ""
             if not twin:
-                at = ("#[debug(ignore)] " if ign else "") + ("#[debug(transparent)] " if tr == i else "")
+                if ign == "both":
+                    at = rng.choice(["#[debug(transparent, ignore)] ", "#[debug(ignore, transparent)] "])
+                else:
+                    at = ("#[debug(ignore)] " if ign else "") + ("#[debug(transparent)] " if tr == i else "")
             items.append("%s%s%s%s" % (at, pub, (names[i] + ": ") if kind == "named" else "", t if twin else tdecl(t)))
         return (" { %s }" if kind == "named" else "(%s)") % ", ".join(items)
     def item(twin):
